@@ -40,6 +40,10 @@
 // not yet
 // #define UPA_URL_USE_ENCODING
 
+#ifdef UPA_VERIF_HOOKS
+namespace upa_verif { struct access; }
+#endif
+
 namespace upa {
 
 // forward declarations
@@ -691,6 +695,9 @@ private:
     friend class detail::url_setter;
     friend class detail::url_parser;
     friend class url_search_params;
+#ifdef UPA_VERIF_HOOKS
+    friend struct ::upa_verif::access;
+#endif
 };
 
 
